@@ -122,9 +122,9 @@ type TrialCfg struct {
 	Stats      bool     `json:"stats"`
 	MaxChoices []uint64 `json:"max_choices,omitempty"`
 	Procs      int      `json:"procs,omitempty"`
-	ExpiryTTL  int64    `json:"expiry_ttl,omitempty"` // > 0: write-reset expiry with this ttl and a manual clock moved by the workers
-	ExpAccess  bool     `json:"exp_access,omitempty"` // the expiry policy is access-reset (reads extend the deadline)
-	LinExp     bool     `json:"lin_exp,omitempty"`    // judged by the map-with-deadlines linearizability model
+	ExpiryTTL  int64    `json:"expiry_ttl,omitempty"`       // > 0: write-reset expiry with this ttl and a manual clock moved by the workers
+	ExpAccess  bool     `json:"exp_access,omitempty"`       // the expiry policy is access-reset (reads extend the deadline)
+	LinExp     bool     `json:"lin_exp,omitempty"`          // judged by the map-with-deadlines linearizability model
 	ChurnG     int      `json:"churn_goroutines,omitempty"` // > 1: that many churn goroutines with key ranges of their own, started together
 }
 
